@@ -564,6 +564,9 @@ const DOCS: &[(&str, &str)] = &[
     ("foreign", "<FILE-INFO-COMMENT><SDGS/></FILE-INFO-COMMENT><AR-PACKAGES><AR-PACKAGE><SHORT-NAME>F</SHORT-NAME><ELEMENTS><ADAPTIVE-APPLICATION-SW-COMPONENT-TYPE><SHORT-NAME>Ad</SHORT-NAME></ADAPTIVE-APPLICATION-SW-COMPONENT-TYPE><MACHINE><SHORT-NAME>Ma</SHORT-NAME></MACHINE></ELEMENTS></AR-PACKAGE></AR-PACKAGES>"),
     // invalid SHORT-NAMEs (kept by a lenient load), empty references next to their possible targets
     ("badnames", "<AR-PACKAGES><AR-PACKAGE><SHORT-NAME>a-b</SHORT-NAME><ELEMENTS><SYSTEM-SIGNAL><SHORT-NAME>S</SHORT-NAME></SYSTEM-SIGNAL><SYSTEM-SIGNAL><SHORT-NAME>1x</SHORT-NAME></SYSTEM-SIGNAL><I-SIGNAL><SHORT-NAME>I</SHORT-NAME><SYSTEM-SIGNAL-REF DEST=\"SYSTEM-SIGNAL\"/></I-SIGNAL><I-SIGNAL><SHORT-NAME>J J</SHORT-NAME><SYSTEM-SIGNAL-REF DEST=\"SYSTEM-SIGNAL\">/a-b/S</SYSTEM-SIGNAL-REF></I-SIGNAL></ELEMENTS></AR-PACKAGE><AR-PACKAGE><SHORT-NAME>ok</SHORT-NAME><ELEMENTS><I-SIGNAL><SHORT-NAME>K</SHORT-NAME><SYSTEM-SIGNAL-REF DEST=\"SYSTEM-SIGNAL\"/></I-SIGNAL></ELEMENTS></AR-PACKAGE></AR-PACKAGES>"),
+    // SHORT-NAMEs that end in a multi-byte character, with and without a numeric suffix (kept by a lenient load only): Element::cmp /
+    // sort() decompose such names into (prefix, index); siblings of the same kind so that the names are really compared
+    ("nonascii", "<AR-PACKAGES><AR-PACKAGE><SHORT-NAME>Ma\u{df}2</SHORT-NAME><ELEMENTS><SYSTEM-SIGNAL><SHORT-NAME>Ma\u{df}10</SHORT-NAME></SYSTEM-SIGNAL><SYSTEM-SIGNAL><SHORT-NAME>Ma\u{df}2</SHORT-NAME></SYSTEM-SIGNAL><SYSTEM-SIGNAL><SHORT-NAME>T\u{fc}r</SHORT-NAME></SYSTEM-SIGNAL><SYSTEM-SIGNAL><SHORT-NAME>Ma\u{df}</SHORT-NAME></SYSTEM-SIGNAL><SYSTEM-SIGNAL><SHORT-NAME>\u{20ac}7</SHORT-NAME></SYSTEM-SIGNAL><SYSTEM-SIGNAL><SHORT-NAME>Gr\u{f6}\u{df}e1</SHORT-NAME></SYSTEM-SIGNAL></ELEMENTS></AR-PACKAGE><AR-PACKAGE><SHORT-NAME>Ma\u{df}10</SHORT-NAME></AR-PACKAGE><AR-PACKAGE><SHORT-NAME>T\u{fc}r</SHORT-NAME></AR-PACKAGE></AR-PACKAGES>"),
     ("empty", ""),
 ];
 
